@@ -405,7 +405,7 @@ pub fn run(ctx: &mut Ctx) -> Result<(), Violation> {
     let wc = ctx.tier.cases(1_200, 60_000);
     crate::widetext::stage_padded(ctx, "padded-formulas-beyond-64-128-256-names", wc, false)?;
     crate::widetext::stage_counters(ctx, "counter-reachability-fixed-points")?;
-    let wc = ctx.tier.cases(40, 600);
+    let wc = ctx.tier.cases(40, 400);
     crate::widetext::stage_long_lists(ctx, "counting-over-long-lists", wc)?;
     if ctx.tier == Tier::Thorough {
         let r = fuzz_stage(ctx, "sem", 400_000, 300, &[vec![0u8; 8], vec![200u8; 64], (0..=255u8).collect()], replay);
